@@ -54,15 +54,16 @@ class Lab:
         fs = glob.glob(os.path.join(str(self.cdir), '*', '*.pkl'))
         return fs[0] if fs else None
 
-    def call(self, must=''):
-        """one parse(path, cache=True) in a fresh process; returns the Start/Return events"""
-        pcache.parser_cache.clear()
+    def call(self, must='', keep_memory=False, diff_cache=False):
+        """one parse(path, cache=True) in a fresh process (or the same one); returns the Start/Return events"""
+        if not keep_memory:
+            pcache.parser_cache.clear()
         self.src_kind = None
         out = [ev('Start', 'g1', 'p1', 'd1')]
         try:
             with warnings.catch_warnings():
                 warnings.simplefilter('ignore')
-                m = self.g.parse(path=self.src, cache=True, cache_path=self.cdir)
+                m = self.g.parse(path=self.src, cache=True, cache_path=self.cdir, diff_cache=diff_cache)
             code = m.get_code()
             cid = next((c for c, t in CONTENT_TEXT.items() if t == code), '?')
             if self.g.parse(code).dump(indent=None) != m.dump(indent=None):
@@ -249,6 +250,11 @@ def cleanup_scenarios(root):
             t = now - age * 24 * 3600 - 60
             os.utime(f, (t, now - mage * 24 * 3600))
             files.append((f, age))
+        # an entry another process is saving right now: created, nothing flushed yet (empty), accessed just now
+        f = os.path.join(vdir, 'being-written.pkl')
+        open(f, 'wb').close()
+        os.utime(f, (now, now))
+        files.append((f, 0))
         os.utime(pf, (now, now))
         lock = os.path.join(str(lab.cdir), 'PARSO-CACHE-LOCK')
         old = now - 2 * 24 * 3600
@@ -274,4 +280,47 @@ def cleanup_scenarios(root):
         traces.append({'id': 20002, 'init': lab.content, 'events': evs, 'kind': 'cleanup', 'hist': ['lock-holds']})
     finally:
         lab.close()
+    return traces
+
+
+def realfs_scenarios(root):
+    """C16 with the REAL file layer (parso.file_io.FileIO, os.stat): the way the file is named - plain path, symbolic
+    link, link to a link, hard link, relative path - must not matter: after the file behind the name is rewritten
+    (newer mtime), the next parse returns the new content, from memory, from a fresh process and with diff_cache."""
+    traces = []
+    tid = 0
+    for kind in ('plain', 'symlink', 'symlink2', 'hardlink', 'relative'):
+        for mode in ('memory', 'fresh', 'diff'):
+            lab = Lab(root)
+            cwd = os.getcwd()
+            try:
+                target = lab.src
+                if kind == 'symlink':
+                    lab.src = os.path.join(root, 'link.py')
+                    os.symlink(target, lab.src)
+                elif kind == 'symlink2':
+                    mid = os.path.join(root, 'mid.py')
+                    os.symlink(target, mid)
+                    lab.src = os.path.join(root, 'link2.py')
+                    os.symlink(mid, lab.src)
+                elif kind == 'hardlink':
+                    lab.src = os.path.join(root, 'hard.py')
+                    os.link(target, lab.src)
+                elif kind == 'relative':
+                    os.chdir(root)
+                    lab.src = 'p1.py'
+                evs = lab.call(keep_memory=True, diff_cache=(mode == 'diff'))
+                base = time.time() - 3000
+                for i, content in enumerate(('c', 'a', 'b', 'c')):
+                    with open(target, 'w', newline='') as f:       # in place: the inode (and every link to it) stays
+                        f.write(CONTENT_TEXT[content])
+                    os.utime(target, (base + 60 * (i + 1), base + 60 * (i + 1)))
+                    evs.append(ev('Write', p='p1', c=content))
+                    evs += lab.call(keep_memory=(mode != 'fresh'), diff_cache=(mode == 'diff'))
+                tid += 1
+                traces.append({'id': 40000 + tid, 'init': lab.content, 'events': evs, 'kind': 'realfs',
+                               'hist': ['realfs', kind, mode]})
+            finally:
+                os.chdir(cwd)
+                lab.close()
     return traces
